@@ -371,6 +371,48 @@ func (g *gen) handOff() {
 	cl := hoFunc(sess, "iqResponder", "Close")
 	g.p("Definition ho_responder_close_closes_chan : bool := %s.\n", hoBool(cl != nil && hoCountCalls(cl, "close") == 1))
 
+	// ---- id completion of the blocking Send* methods ----
+	for _, kf := range [][3]string{{"iq", "session_iq.go", "SendIQ"}, {"message", "session_message.go", "SendMessage"}, {"presence", "session_presence.go", "SendPresence"}} {
+		f := g.parse(kf[1])
+		if f == nil {
+			continue
+		}
+		fd := hoFunc(f, "Session", kf[2])
+		if fd == nil {
+			g.errs = append(g.errs, kf[1]+": "+kf[2]+" not found")
+			continue
+		}
+		// the if statement whose body assigns attr.RandomID() to id: its condition
+		when := 0
+		ast.Inspect(fd, func(x ast.Node) bool {
+			is0, ok := x.(*ast.IfStmt)
+			if !ok {
+				return true
+			}
+			direct := false
+			for _, st := range is0.Body.List {
+				if bytes.Contains([]byte(g.hoText(st)), []byte("attr.RandomID()")) {
+					direct = true
+				}
+			}
+			if !direct {
+				return true
+			}
+			switch g.hoText(is0.Cond) {
+			case `id == ""`, `"" == id`:
+				when = 1
+			case `idx == -1`, `idx < 0`:
+				when = 2
+			default:
+				when = 3
+			}
+			return true
+		})
+		g.p("Definition ho_send_%s_generates_id_when : nat := %d. (* 1: id == \"\", 2: attribute absent, 3: other, 0: never *)\n", kf[0], when)
+		// the key handed to sendResp is that id variable
+		g.p("Definition ho_send_%s_registers_completed_id : bool := %s.\n", kf[0], hoBool(bytes.Contains([]byte(g.hoText(fd)), []byte("s.sendResp(ctx, id, "))))
+	}
+
 	// ---- session.go / session_iq.go: the life of the response after the hand-off ----
 	g.hoResponseLife(sess, cl)
 
@@ -526,6 +568,25 @@ func (g *gen) handOff() {
 		ho := hoFunc(ib, "", "handleOpen")
 		g.p("Definition ho_ibb_open_offer_gives_up_on_done : bool := %s.\n", hoBool(ho != nil && bytes.Contains([]byte(g.hoText(ho)), []byte("case <-expect.done:"))))
 	}
+	// every response obtained inside ibb from a blocking call that returns one
+	// is closed on every path on which it was obtained
+	obtained, closedAll := 0, 0
+	for _, f := range []*ast.File{ic, ib, g.parse("ibb/listen.go")} {
+		if f == nil {
+			continue
+		}
+		for _, d := range f.Decls {
+			fd, is := d.(*ast.FuncDecl)
+			if !is || fd.Body == nil {
+				continue
+			}
+			o, c := g.hoResponsesClosed(fd)
+			obtained += o
+			closedAll += c
+		}
+	}
+	g.p("Definition ho_ibb_responses_obtained : nat := %d.\n", obtained)
+	g.p("Definition ho_ibb_responses_closed_on_all_paths : nat := %d.\n", closedAll)
 	sw := hoFunc(ic, "stanzaWriter", "Write")
 	g.p("Definition ho_ibb_writer_tests_abort_first : bool := %s.\n", hoBool(sw != nil && len(sw.Body.List) > 0 &&
 		bytes.Contains([]byte(g.hoText(sw.Body.List[0])), []byte("aborted.Load()"))))
@@ -626,6 +687,113 @@ func hoDeferredClose(g *gen, fd *ast.FuncDecl, onError bool) bool {
 		return !bytes.Contains(t, []byte("if e != nil"))
 	}
 	return false
+}
+
+// hoResponsesClosed: for every `x, err := <recv>.SendIQ/SendIQElement/EncodeIQ/
+// EncodeIQElement/SendMessage*/SendPresence*/Encode*(...)` in the top-level
+// statement list of fd (the calls that return a response), walk the statements
+// that follow along the path on which the response was obtained (err == nil)
+// and report whether x.Close() has run, or a `defer x.Close()` is in place,
+// before every return. It returns (number of such assignments, number closed
+// on all paths).
+func (g *gen) hoResponsesClosed(fd *ast.FuncDecl) (int, int) {
+	returnsResponse := map[string]bool{"SendIQ": true, "SendIQElement": true, "EncodeIQ": true, "EncodeIQElement": true,
+		"SendMessage": true, "SendMessageElement": true, "EncodeMessage": true, "EncodeMessageElement": true,
+		"SendPresence": true, "SendPresenceElement": true, "EncodePresence": true, "EncodePresenceElement": true}
+	obtained, ok := 0, 0
+	list := fd.Body.List
+	for i, st := range list {
+		as, is := st.(*ast.AssignStmt)
+		if !is || len(as.Lhs) != 2 || len(as.Rhs) != 1 {
+			continue
+		}
+		call, is := as.Rhs[0].(*ast.CallExpr)
+		if !is {
+			continue
+		}
+		sel, is := call.Fun.(*ast.SelectorExpr)
+		if !is || !returnsResponse[sel.Sel.Name] {
+			continue
+		}
+		x, is1 := as.Lhs[0].(*ast.Ident)
+		e, is2 := as.Lhs[1].(*ast.Ident)
+		if !is1 || !is2 || x.Name == "_" {
+			continue
+		}
+		obtained++
+		closed, all := g.hoWalkClosed(list[i+1:], x.Name, e.Name, false)
+		_ = closed
+		if all {
+			ok++
+		}
+	}
+	return obtained, ok
+}
+
+// hoWalkClosed walks stmts on the path where errName == nil holds (until it is
+// reassigned); it returns (closed at the end, every return seen had the
+// response closed). A function body that ends without a return counts as a return.
+func (g *gen) hoWalkClosed(stmts []ast.Stmt, x, errName string, closed bool) (bool, bool) {
+	errNil := true
+	all := true
+	closes := func(n ast.Node) bool { return n != nil && bytes.Contains([]byte(g.hoText(n)), []byte(x+".Close()")) }
+	for _, st := range stmts {
+		switch t := st.(type) {
+		case *ast.DeferStmt:
+			if closes(t) {
+				closed = true
+			}
+		case *ast.ReturnStmt:
+			if !closed && !closes(t) {
+				all = false
+			}
+			return closed, all
+		case *ast.IfStmt:
+			cond := g.hoText(t.Cond)
+			switch {
+			case errNil && cond == errName+" != nil":
+				// the failure path: no response was obtained there
+			case errNil && cond == errName+" == nil":
+				c, a := g.hoWalkClosed(t.Body.List, x, errName, closed)
+				closed, all = c, all && a
+				if closes(t.Body) {
+					errNil = false // err may have been reassigned by the close
+				}
+			default:
+				c1, a1 := g.hoWalkClosed(t.Body.List, x, errName, closed)
+				c2, a2 := closed, true
+				if blk, is := t.Else.(*ast.BlockStmt); is {
+					c2, a2 = g.hoWalkClosed(blk.List, x, errName, closed)
+				}
+				all = all && a1 && a2
+				endsInReturn := func(l []ast.Stmt) bool {
+					if len(l) == 0 {
+						return false
+					}
+					_, is := l[len(l)-1].(*ast.ReturnStmt)
+					return is
+				}
+				switch {
+				case endsInReturn(t.Body.List):
+					closed = c2
+				default:
+					closed = c1 && c2
+				}
+			}
+		default:
+			if closes(st) {
+				closed = true
+			}
+			if as, is := st.(*ast.AssignStmt); is {
+				for _, l := range as.Lhs {
+					if id, is := l.(*ast.Ident); is && id.Name == errName && !closes(st) {
+						errNil = false
+					}
+				}
+			}
+		}
+	}
+	return closed, all
 }
 
 func max0(g *gen, v int, msg string) int {
